@@ -131,6 +131,9 @@ pub fn generate_bigram_info(
         }
     }
 
+    // A BufWriter dropped without flush() discards write errors.
+    bigram_cost_wtr.flush()?;
+
     let mut bigram_right_wtr = BufWriter::new(bigram_right_wtr);
     for id in 1..left_features.len() {
         write!(&mut bigram_right_wtr, "{id}\t")?;
@@ -154,6 +157,8 @@ pub fn generate_bigram_info(
         writeln!(&mut bigram_right_wtr)?;
     }
 
+    bigram_right_wtr.flush()?;
+
     let mut bigram_left_wtr = BufWriter::new(bigram_left_wtr);
     for id in 1..right_features.len() {
         write!(&mut bigram_left_wtr, "{id}\t")?;
@@ -176,6 +181,7 @@ pub fn generate_bigram_info(
             ));
         }
     }
+    bigram_left_wtr.flush()?;
 
     Ok(())
 }
